@@ -495,7 +495,38 @@ func (x *Exec) loopEnv(fr *Frame, st *State, h *ssa.BasicBlock) *Env {
 	delete(entry.vars, "")
 	env.old = entry
 	env.vars = map[string]Val{}
+	if !fr.isEntry {
+		// invariants of a function executed in place may also name the parameters and captured
+		// variables of the function under verification (the enclosing function of a helper
+		// closure), unless the helper declares the name itself
+		for n, v := range x.entryNames(st) {
+			if !fnDeclares(fr.fn, n) {
+				env.vars[n] = v
+			}
+		}
+	}
 	return env
+}
+
+func fnDeclares(fn *ssa.Function, name string) bool {
+	for _, p := range fn.Params {
+		if p.Name() == name {
+			return true
+		}
+	}
+	for _, fv := range fn.FreeVars {
+		if fv.Name() == name {
+			return true
+		}
+	}
+	for _, b := range fn.Blocks {
+		for _, in := range b.Instrs {
+			if a, ok := in.(*ssa.Alloc); ok && a.Comment == name {
+				return true
+			}
+		}
+	}
+	return false
 }
 
 // loopEntry: first arrival at a loop header. Returns false if the path ends.
